@@ -316,14 +316,14 @@ def eval_c04(ctx, case):
                 ex = math.exp(-kappa * t)
                 w_exact = winf + (w0 - winf) * ex
                 p_exact = th0 + winf * t + (w0 - winf) * (1 - ex) / kappa
-                bound_w = abs(w0 - winf) * (kappa * t) * (kappa * dt)
-                bound_p = abs(w0 - winf) * dt * (kappa ** 2 * t ** 2 * (1 + 1 / max(mstep, 1)) / 2 + 1)
+                bound_w = abs(w0 - winf) * (kappa * t) * (kappa * dt)   # C04.speed_error_bound
+                bound_p = abs(w0 - winf) * (kappa * t + 1) * dt   # C04.position_error_bound
             else:
                 acc = A / J
                 w_exact = w0 + acc * t
                 p_exact = th0 + w0 * t + acc * t * t / 2
                 bound_w = 0.0
-                bound_p = abs(acc) * t * dt / 2
+                bound_p = abs(acc) * t * dt / 2   # C04.const_acc_pos (exact)
             ew = abs(last['angular speed'][mstep] - w_exact)
             ep = abs(last['angular position'][mstep] - p_exact)
             scale_w = max(abs(w0), abs(w_exact), 1e-9)
